@@ -52,19 +52,60 @@ STOCK = {
     "cangjie5": dict(options=["simplification", "extended_charset"], uniq=True),
 }
 FILTER_TOKEN = {"uniquifier": "uniq", "single_char_filter": "scf"}
+# synthetic, with filters the model does not port (simplifier with every option the constructor reads, charset_filter): the
+# same table-driven translators; like the stock schemas they enter the model as their observed list L.  Each names the options
+# that switch its filters; `extra` is the configuration of the filters.
+OPQ = {
+    # one-to-many conversions (s2t: 发 -> 發 髮, 干 -> 幹 乾 干 …): Convert() queues several candidates per source candidate
+    "c04_s2t": dict(ps=4, trs=["a", "b"], filters=["simplifier@s2t", "uniquifier"], cycle=0, options=["opt_s2t"],
+                    extra=["s2t:", "  opencc_config: s2t.json", "  option_name: opt_s2t", "  tips: all"]),
+    # the original kept as text, the converted form as comment; comments not inherited; comment_format; default option name
+    "c04_t2s_cmt": dict(ps=3, trs=["a", "b", "c"], filters=["simplifier", "uniquifier"], cycle=1, options=["simplification"],
+                        extra=["simplifier:", "  tips: char", "  show_in_comment: true", "  inherit_comment: false",
+                               "  comment_format:", "    - xform/^/〔/", "    - xform/$/〕/"]),
+    # two simplifiers in a row (the second converts what the first produced), a candidate type excluded, `tip:` (the older key),
+    # tips off by name, then the single-char filter on top of the uniquifier
+    "c04_chain": dict(ps=5, trs=["a", "b"], filters=["simplifier@zs", "simplifier@ztw", "uniquifier", "single_char_filter"], cycle=0,
+                      options=["zs", "ztw"],
+                      extra=["zs:", "  option_name: zs", "  tip: char", "  excluded_types: [vt]",
+                             "ztw:", "  option_name: ztw", "  opencc_config: s2twp.json", "  tips: none", "  inherit_comment: true"]),
+    # charset_filter as a filter of its own (off when `extended_charset` is on), ahead of a simplifier and the uniquifier
+    "c04_charset": dict(ps=4, trs=["a", "b"], filters=["charset_filter", "simplifier", "uniquifier"], cycle=0,
+                        options=["extended_charset", "simplification"], extra=["simplifier:", "  tips: all"]),
+}
+# echo_translator behind a table-driven translator and NO filter (nothing between the merged translation and the menu): its
+# translation overrides Compare() (it always lets the others go first), so the election among the merged translations is what
+# decides when the list is known to be complete; the rows give lists whose length is an exact multiple of the page size
+OPQ["c04_echo"] = dict(ps=3, trs=["a"], translators=["c04_translator@a", "echo_translator"], filters=[], cycle=0, options=[], extra=[])
+OPQ["c04_echo2"] = dict(ps=3, trs=["a", "b"], translators=["echo_translator", "c04_translator@a", "c04_translator@b"], filters=[], cycle=1,
+                        options=[], extra=[])
+# punctuation segments (punct_segmentor + punct_translator; tag `punct`, not `abc`) under the uniquifier: lists that repeat an
+# alternative, one of them a whole number of pages long; a simplifier restricted to `tags: [abc]` ahead of it
+OPQ["c04_punct"] = dict(ps=3, trs=["a"], translators=["punct_translator", "c04_translator@a"], filters=["simplifier", "uniquifier"], cycle=0,
+                        options=["simplification", "full_shape"], punct=True,
+                        extra=["simplifier:", "  tags: [abc]", "  tips: all", "punctuator:", '  digit_separators: ""', "  half_shape:",
+                               "    '/': ['、', '/', '、', '÷', '/']", "    ';': ['；', ';', '；', '︔', '；', '﹔', ';', '⁏', '؛']",
+                               "    '$': ['￥', '￥']", "    ',': '，'", "  full_shape:", "    '/': ['／', '÷', '／']",
+                               "    ';': ['；', '；', '；']", "    '$': ['＄', '￥', '$', '＄']"])
+LAYOUT_OPTS = ["_vertical", "_linear", "_horizontal"]
 
 
 def syn_yaml(sid, s):
     y = ["schema:", "  schema_id: %s" % sid, "  name: %s" % sid, "  version: '1'", "engine:", "  processors:",
-         "    - speller", "    - selector", "    - navigator", "    - express_editor",
-         "  segmentors:", "    - abc_segmentor", "    - fallback_segmentor", "  translators:"]
-    y += ["    - c04_translator@%s" % ns for ns in s["trs"]]
+         "    - speller"] + (["    - punctuator"] if s.get("punct") else []) + ["    - selector", "    - navigator", "    - express_editor",
+         "  segmentors:", "    - abc_segmentor"] + (["    - punct_segmentor"] if s.get("punct") else []) + ["    - fallback_segmentor", "  translators:"]
+    y += ["    - %s" % t for t in s.get("translators", ["c04_translator@%s" % ns for ns in s["trs"]])]
     if s["filters"]:
         y += ["  filters:"] + ["    - %s" % f for f in s["filters"]]
     y += ["speller:", "  alphabet: 'abc'", "menu:", "  page_size: %d" % s["ps"]]
     if s["cycle"]:
         y += ["  page_down_cycle: true"]
+    y += s.get("extra", [])
     return "\n".join(y) + "\n"
+
+
+def all_syn():
+    return dict(SYN, **OPQ)
 
 
 def workspace(c, bdir):
@@ -74,8 +115,8 @@ def workspace(c, bdir):
     h = hashlib.sha256()
     for f in files:
         h.update(os.path.basename(f).encode() + b"\0" + open(f, "rb").read())
-    for sid in sorted(SYN):
-        h.update(syn_yaml(sid, SYN[sid]).encode())
+    for sid in sorted(all_syn()):
+        h.update(syn_yaml(sid, all_syn()[sid]).encode())
     so = os.path.join(bdir, "lib", "librime.so")
     st = os.stat(os.path.realpath(so))
     h.update(("%s %d %d" % (os.path.realpath(so), st.st_mtime_ns, st.st_size)).encode())
@@ -90,15 +131,16 @@ def workspace(c, bdir):
         for f in files:
             shutil.copy(f, tmp)
         dy = open(os.path.join(tmp, "default.yaml")).read()
-        dy = dy.replace("  - schema: cangjie5\n", "  - schema: cangjie5\n" + "".join("  - schema: %s\n" % s for s in sorted(SYN)), 1)
+        dy = dy.replace("  - schema: cangjie5\n", "  - schema: cangjie5\n" + "".join("  - schema: %s\n" % s for s in sorted(all_syn())), 1)
         if "c04_plain" not in dy:
             raise vlib.BuildError("C04: cannot add the synthetic schemas to data/minimal/default.yaml (schema_list shape changed)")
         open(os.path.join(tmp, "default.yaml"), "w").write(dy)
-        for sid in SYN:
-            open(os.path.join(tmp, sid + ".schema.yaml"), "w").write(syn_yaml(sid, SYN[sid]))
+        for sid in all_syn():
+            open(os.path.join(tmp, sid + ".schema.yaml"), "w").write(syn_yaml(sid, all_syn()[sid]))
         rc, out = vlib.sh([os.path.join(bdir, "bin", "rime_deployer"), "--build", tmp], env=vlib.SAN_ENV, timeout=1800)
         ok = rc == 0 and all(os.path.exists(os.path.join(tmp, "build", f)) for f in
-                             ["cangjie5.table.bin", "luna_pinyin.table.bin", "c04_scf.schema.yaml", "default.yaml"])
+                             ["cangjie5.table.bin", "luna_pinyin.table.bin", "c04_scf.schema.yaml", "default.yaml"] +
+                             [x + ".schema.yaml" for x in OPQ])
         if not ok:
             shutil.rmtree(tmp, ignore_errors=True)
             raise vlib.BuildError("C04: rime_deployer --build failed on the stock workspace (rc=%d): %s" % (rc, out[-2000:]))
@@ -122,8 +164,19 @@ def workspace(c, bdir):
 TEXTS = ["啊", "吧", "从", "的", "𨱈", "𠔗", "阿爸", "爸爸", "测试", "ab", "a", "é", "X", "吃多了"]
 
 
-def gen_rows(rng):
+# texts for the schemas with a simplifier / charset filter: simplified forms with several traditional ones (发 干 后 面 台 里 只),
+# traditional forms that fall together when simplified (發 髮 -> 发; 乾 幹 -> 干), words, and characters at both ends of
+# the blocks is_extended_cjk lists (㐀 U+3400, 䶿 U+4DBF / ䷀ U+4DC0 outside; ㌀ U+3300, ㏿ U+33FF / ㋿ U+32FF outside;
+# ︰ U+FE30, ﹏ U+FE4F / ﹐ U+FE50 outside; 豈 U+F900, 﫿 U+FAFF; 𠀀 U+20000, 𪛟 U+2A6DF, 𪜀 U+2A700, 𫝀 U+2B740, 𫠠 U+2B820,
+# 𬺰 U+2CEB0, 𮯰 U+2EBF0, 丽 U+2F800, 𰀀 U+30000, 𱍐 U+31350) alone and inside words
+TEXTS_X = ["发", "干", "后", "面", "台", "里", "只", "發", "髮", "乾", "幹", "著", "頭髮", "头发", "干净", "乾淨", "皇后", "後面", "啊",
+           "㐀", "䶿", "䷀", "㌀", "㏿", "㋿", "︰", "﹏", "﹐", "豈", "﫿", "𠀀", "𪛟", "𪜀", "𫝀", "𫠠", "𬺰", "𮯰", "丽", "𰀀", "𱍐",
+           "啊㐀", "𠀀的", "ab", "台灣", "里面"]
+
+
+def gen_rows(rng, texts=None):
     """rows[ns][key] = [(text, comment, quality, flag)]: overlapping texts across translators, many equal qualities"""
+    texts = texts or TEXTS
     rows = {}
     n = 0
     for ns in "abc":
@@ -135,7 +188,7 @@ def gen_rows(rng):
             r = []
             for _ in range(rng.choice([1, 2, 3, 5, 8])):
                 n += 1
-                r.append((rng.choice(TEXTS), "%s%d" % (ns, n), rng.choice([0, 0, 1, 1, 2, 3]),
+                r.append((rng.choice(texts), "" if texts is not TEXTS and rng.random() < 0.3 else "%s%d" % (ns, n), rng.choice([0, 0, 1, 1, 2, 3]),
                           "t" if rng.random() < 0.8 else "s"))
             t[k] = r
         rows[ns] = t
@@ -164,6 +217,10 @@ def syn_tr_lines(rows, sid, inp):
     return lines
 
 
+KEYCODES = [0xff50, 0xff51, 0xff52, 0xff53, 0xff54, 0xff55, 0xff56, 0xff57,      # Home Left Up Right Down Prior Next End
+            0xff95, 0xff96, 0xff97, 0xff98, 0xff99, 0xff9a, 0xff9b, 0xff9c]      # KP_Home … KP_End
+
+
 def gen_order(rng, n, complete, ps, cap):
     """one order of reading/paging calls over a list of which n entries are known (all of it when complete)"""
     limit = n + 2 * ps if complete else max(0, cap - 3 * ps)
@@ -182,7 +239,7 @@ def gen_order(rng, n, complete, ps, cap):
             new = int(w[1])
         elif w[0] == "hlp":
             new = ub[0] + ps
-        elif op in ("chpage +", "key next"):
+        elif op in ("chpage +", "key next") or w[0] == "keyc":
             new = ub[0] + ps
         elif op == "key down":
             new = ub[0] + 1
@@ -198,8 +255,13 @@ def gen_order(rng, n, complete, ps, cap):
             k = max(0, min(k, cap - ps - a))
         return "list %d %d" % (a, k)
 
-    profile = rng.choice(["page-first", "iter-first", "far-first", "hl-jumps", "keys", "mixed", "mixed"])
+    profile = rng.choice(["page-first", "iter-first", "far-first", "hl-jumps", "keys", "keys", "mixed", "mixed"])
     ops = []
+    # the arrow / paging / Home / End keys and their keypad twins by keycode: what each does depends on the layout options of
+    # the state (the model looks the key up in the selector's keymap of that layout; a key the selector leaves to the navigator
+    # is dropped from the order before it is run: it moves the caret, i.e. changes the input being composed)
+    def keyc():
+        return "keyc %d" % rng.choice(KEYCODES)
     if profile == "page-first":
         emit(ops, "ctx")
         for _ in range(rng.choice([1, 2, 4])):
@@ -231,11 +293,15 @@ def gen_order(rng, n, complete, ps, cap):
             emit(ops, "ctx")
     elif profile == "keys":
         for _ in range(rng.choice([3, 6, 10])):
-            emit(ops, rng.choice(["key next", "key down", "key down", "key up", "key prior", "key next"]))
+            emit(ops, rng.choice(["key next", "key down", "key down", "key up", "key prior", "key next", keyc(), keyc(), keyc(), keyc()]))
             if rng.random() < 0.6:
                 emit(ops, "ctx")
+        if rng.random() < 0.5:
+            # Home / End with a candidate other than the first highlighted, at each alignment with the pages
+            emit(ops, rng.choice(["hl %d" % idx(), "hlp %d" % rng.randrange(0, ps + 1), "key next", "key down"]))
+            emit(ops, "keyc %d" % rng.choice([0xff50, 0xff57, 0xff95, 0xff9c]))
         emit(ops, "ctx")
-    pool = ["ctx", "ctx", "chpage +", "chpage -", "key next", "key prior", "key up", "key down"]
+    pool = ["ctx", "ctx", "chpage +", "chpage -", "key next", "key prior", "key up", "key down", keyc(), keyc(), keyc()]
     for _ in range(rng.choice([2, 4, 8]) if profile == "mixed" else rng.choice([0, 2])):
         r = rng.random()
         if r < 0.45:
@@ -316,6 +382,13 @@ def text_of(pair):
     return pair.split(":")[0]
 
 
+def layout_opts(rng):
+    """the options the selector derives its keymap from: none (horizontal text, stacked list) half of the time, else one of
+    the other three layouts, `_horizontal` being the deprecated way to ask for a linear list"""
+    return rng.choice([[], [], [], [("_vertical", 1)], [("_linear", 1)], [("_horizontal", 1)], [("_vertical", 1), ("_linear", 1)],
+                       [("_vertical", 1), ("_horizontal", 1)], [("_linear", 1), ("_horizontal", 0)]])
+
+
 # ------------------------------------------------------------------ API level
 class Case:
     """one composing state: schema, option set, input, how it is entered"""
@@ -328,6 +401,11 @@ class Case:
     def state_line(self):
         o = ",".join("%s=%d" % kv for kv in self.opts) or "-"
         return "state %s %s %s %s" % (self.schema, o, hx(self.inp), self.how)
+
+    def layout(self):
+        """text orientation | candidate list layout, as Selector numbers its keymaps (Vertical = 1, Linear = 2)"""
+        o = dict(self.opts)
+        return (1 if o.get("_vertical") else 0) | (2 if o.get("_linear") or o.get("_horizontal") else 0)
 
     def ident(self):
         return (self.schema, tuple(self.opts), self.inp, self.how)
@@ -412,10 +490,11 @@ def api_round(c, exe, ws, rows, cases, n_orders, cap, stats, tag):
         else:
             cs.L, cs.complete = [], True
         stats["states"] += 1
+        stats.setdefault("per_schema", {})[cs.schema] = stats.get("per_schema", {}).get(cs.schema, 0) + 1
         stats["list_lengths"].append(len(cs.L))
         if bool(cs.hasmenu) != bool(cs.L):
             fails.append((cs, [], "has-menu", "HasMenu=%d but the iterator yields %d candidates" % (cs.hasmenu, len(cs.L))))
-        uses_uniq = STOCK.get(cs.schema, {}).get("uniq") or "uniquifier" in SYN.get(cs.schema, {}).get("filters", [])
+        uses_uniq = STOCK.get(cs.schema, {}).get("uniq") or "uniquifier" in all_syn().get(cs.schema, {}).get("filters", [])
         if uses_uniq:
             texts = [text_of(p) for p in cs.L]
             if len(set(texts)) != len(texts):
@@ -428,57 +507,81 @@ def api_round(c, exe, ws, rows, cases, n_orders, cap, stats, tag):
                     seen[t] = j
     cases = [cs for cs in cases if cs.L is not None]
     # phase 2
-    body, index = [], []          # index: (case_no, order_no, op or None)
     orders = {}
     for i, cs in enumerate(cases):
-        os_ = cs.orders if cs.orders is not None else [gen_order(c.rng, len(cs.L), cs.complete, cs.ps, cap) for _ in range(n_orders)]
-        orders[i] = os_
-        for j, ops in enumerate(os_):
+        orders[i] = cs.orders if cs.orders is not None else [gen_order(c.rng, len(cs.L), cs.complete, cs.ps, cap) for _ in range(n_orders)]
+
+    # `key next|prior|up|down` name the selector's actions in the default layout; in the other layouts the same keys are
+    # sent by keycode and mean what the layout's keymap says
+    NAMED = {"key next": "keyc %d" % 0xff56, "key prior": "keyc %d" % 0xff55, "key up": "keyc %d" % 0xff52, "key down": "keyc %d" % 0xff54}
+    for i, cs in enumerate(cases):
+        if cs.layout() != 0 and cs.orders is None:
+            orders[i] = [[NAMED.get(op, op) for op in ops] for ops in orders[i]]
+
+    def model_script():
+        """the orders as a driver script; mindex per line: None | ("L", i, j) | ("op", i, j, k)"""
+        mlines, mindex = [], []
+        for i, cs in enumerate(cases):
+            for j, ops in enumerate(orders[i]):
+                if j > 0:
+                    mlines.append("again")
+                    mindex.append(None)
+                elif cs.schema in SYN:
+                    mlines += ["reset"] + syn_tr_lines(rows, cs.schema, cs.inp)
+                    mlines += ["layout %d" % cs.layout(), "seg %d %d" % (cs.ps, SYN[cs.schema]["cycle"]), "L"]
+                    mindex += [None] * (len(SYN[cs.schema]["trs"]) + 4) + [("L", i, j)]
+                else:
+                    cyc = OPQ[cs.schema]["cycle"] if cs.schema in OPQ else 0
+                    mlines += ["layout %d" % cs.layout(), "full %d %d %s" % (cs.ps, cyc, " ".join(cs.L))]
+                    mindex += [None, None]
+                for k, op in enumerate(ops):
+                    mlines.append(op)
+                    mindex.append(("op", i, j, k))
+        mout = vlib.run_driver("driver_c04", "\n".join(mlines) + "\n").splitlines()
+        if len(mout) != len(mlines):
+            raise vlib.BuildError("driver_c04 printed %d lines for %d ops" % (len(mout), len(mlines)))
+        return mindex, mout
+
+    # the model says which key ops the selector leaves to the navigator in the state they would be sent in (`oos`): those move
+    # the caret, so they are taken out of the order (they do not change the model's state either)
+    if any(op.startswith("keyc") for i in orders for ops in orders[i] for op in ops):
+        mindex, mout = model_script()
+        drop = set(m[1:] for m, mo in zip(mindex, mout) if m and m[0] == "op" and mo == "oos")
+        if drop:
+            stats["keys_left_to_navigator_dropped"] = stats.get("keys_left_to_navigator_dropped", 0) + len(drop)
+            for i in orders:
+                orders[i] = [[op for k, op in enumerate(ops) if (i, j, k) not in drop] for j, ops in enumerate(orders[i])]
+    body, index = [], []          # index: (case_no, order_no, op_no or None, op or None)
+    for i, cs in enumerate(cases):
+        for j, ops in enumerate(orders[i]):
             body.append(cs.state_line() if (j % 2 == 0 or cs.orders is not None) else "restate")
-            index.append((i, j, None))
-            for op in ops:
+            index.append((i, j, None, None))
+            for k, op in enumerate(ops):
                 body.append(op)
-                index.append((i, j, op))
+                index.append((i, j, k, op))
     rc, out, lines = run_harness_api(c, exe, ws, rows, body, tag + "p2")
     if rc != 0 or len(lines) != len(index):
         stats["harness_aborts"] += 1
         k = min(len(lines), len(index) - 1)
-        i, j, _ = index[k]
+        i, j = index[k][0], index[k][1]
         fails.append((cases[i], orders[i][j], "crash", out[-2500:]))
         index, lines = index[:len(lines)], lines[:len(index)]
-    # model script
-    mlines, mindex = [], []
-    for (i, j, op), l in zip(index, lines):
-        cs = cases[i]
-        if op is None:
-            if j > 0:
-                mlines.append("again")
-                mindex.append(None)
-            elif cs.schema in SYN:
-                mlines += ["reset"] + syn_tr_lines(rows, cs.schema, cs.inp)
-                mlines.append("seg %d %d" % (cs.ps, SYN[cs.schema]["cycle"]))
-                mlines.append("L")
-                mindex += [None] * (len(SYN[cs.schema]["trs"]) + 3) + [("L", i, j)]
-            else:
-                mlines.append("full %d 0 %s" % (cs.ps, " ".join(cs.L)))
-                mindex.append(None)
-        else:
-            mlines.append(op)
-            mindex.append(("op", i, j, op, l))
-    mout = vlib.run_driver("driver_c04", "\n".join(mlines) + "\n").splitlines()
-    if len(mout) != len(mlines):
-        raise vlib.BuildError("driver_c04 printed %d lines for %d ops" % (len(mout), len(mlines)))
+    impl_at = {}
     bad = set()
-    for k, (i, j, op) in enumerate(index):
+    for (i, j, k, op), l in zip(index, lines):
         if op is None:
             continue
+        impl_at[(i, j, k)] = l
         cs = cases[i]
         stats["evaluations"] += 1
         stats["op_kinds"][op.split(" ")[0]] = stats["op_kinds"].get(op.split(" ")[0], 0) + 1
-        why = monitor_read(cs, op, parse_api_line(lines[k]), cap)
+        if op.startswith("keyc"):
+            stats["layouts_keyed"][cs.layout()] = stats["layouts_keyed"].get(cs.layout(), 0) + 1
+        why = monitor_read(cs, op, parse_api_line(l), cap)
         if why and (i, j) not in bad:
             bad.add((i, j))
-            fails.append((cs, orders[i][j], why, "after `%s`: %s" % (op, lines[k][:300])))
+            fails.append((cs, orders[i][j], why, "after `%s`: %s" % (op, l[:300])))
+    mindex, mout = model_script()
     for m, mo in zip(mindex, mout):
         if m is None:
             continue
@@ -489,13 +592,13 @@ def api_round(c, exe, ws, rows, cases, n_orders, cap, stats, tag):
             if (Lm != cs.L) if cs.complete else (Lm[:len(cs.L)] != cs.L):
                 fails.append((cs, [], "model-list", "model list %s != implementation list %s" % (Lm[:8], cs.L[:8])))
         else:
-            _, i, j, op, l = m
-            if not cases[i].complete and cases[i].schema not in SYN:
-                # the model was fed a truncated list; ops were generated to stay inside it
-                pass
+            _, i, j, k = m
+            l = impl_at.get((i, j, k))
+            if l is None:
+                continue          # the harness did not get that far (reported as a crash above)
             if mo != l and (i, j) not in bad:
                 bad.add((i, j))
-                fails.append((cases[i], orders[i][j], "model-diff", "after `%s`: impl %s | model %s" % (op, l[:200], mo[:200])))
+                fails.append((cases[i], orders[i][j], "model-diff", "after `%s`: impl %s | model %s" % (orders[i][j][k], l[:200], mo[:200])))
     for i, cs in enumerate(cases):
         if len(cs.L) > cs.ps:
             stats["nontrivial"].add(cs.ident())
@@ -509,7 +612,7 @@ def api_round(c, exe, ws, rows, cases, n_orders, cap, stats, tag):
 def single_case_fails(c, exe, ws, rows, cs, ops, cap, clause):
     """does this one case (with this one order) still fail with `clause`?"""
     st = {"states": 0, "evaluations": 0, "harness_aborts": 0, "list_lengths": [], "op_kinds": {}, "model_lists_compared": 0,
-          "nontrivial": set(), "samples": []}
+          "nontrivial": set(), "samples": [], "layouts_keyed": {}}
     one = Case(cs.schema, cs.opts, cs.inp, cs.how, cs.rows_id, orders=[ops] if ops is not None else [])
     f = api_round(c, exe, ws, rows, [one], 0, cap, st, "min")
     return [x for x in f if x[2] == clause]
@@ -551,14 +654,14 @@ def report_api_failure(c, exe, ws, rows, cs, ops, clause, detail, cap):
         f = single_case_fails(c, exe, ws, rows, small, None, cap, "duplicate")
         detail = f[0][3] if f else detail
         r = small.as_json(ops=[])
-        r.update({"clause": "duplicate", "detail": detail, "rows": rows if cs.schema in SYN else None})
+        r.update({"clause": "duplicate", "detail": detail, "rows": rows if cs.schema in all_syn() else None})
         c.report("C04:duplicate:%s" % cs.schema,
                  "candidate list of %s with %s, input %r has the same text twice: %s" %
                  (cs.schema, ",".join("%s=%d" % kv for kv in opts) or "no options", cs.inp, detail), r)
         return
     if clause in ("crash", "state-failed"):
         r = cs.as_json(ops=ops)
-        r.update({"clause": clause, "log": detail, "rows": rows if cs.schema in SYN else None})
+        r.update({"clause": clause, "log": detail, "rows": rows if cs.schema in all_syn() else None})
         c.report("C04:%s:%s" % (clause, cs.schema), "harness aborted / sanitizer report while reading the candidates of %s input %r" %
                  (cs.schema, cs.inp), r)
         return
@@ -568,7 +671,7 @@ def report_api_failure(c, exe, ws, rows, cs, ops, clause, detail, cap):
         f = single_case_fails(c, exe, ws, rows, cs, small, cap, clause)
         detail = f[0][3] if f else detail
     r = cs.as_json(ops=small)
-    r.update({"clause": clause, "detail": detail, "rows": rows if cs.schema in SYN else None})
+    r.update({"clause": clause, "detail": detail, "rows": rows if cs.schema in all_syn() else None})
     if clause in ("model-diff", "model-list"):
         c.report("C04:correspondence:%s" % cs.schema,
                  "model and implementation disagree on %s input %r (no property violation found on this case): %s" %
@@ -595,6 +698,7 @@ def gen_menu_case(rng):
         end = start + rng.choice([1, 1, 2, 2, 3])
         flag = "t" if rng.random() < (0.85 if "scf" in filters else 0.4) else "s"
         return "%s:%s:%d:%d:%d:%s" % (hx(rng.choice(TEXTS[:9])), hx("c%d" % serial[0]), start, end, rng.choice([-1, 0, 0, 1, 1, 2]), flag)
+    probe = rng.random() < 0.15
     for _ in range(ntr):
         wr = []
         distinct = rng.random() < 0.2
@@ -602,8 +706,28 @@ def gen_menu_case(rng):
             wr.append("distinct")
         if rng.random() < 0.25:
             wr.append("cache")
+        if rng.random() < 0.2:
+            wr.append("prefetch%d" % rng.choice([1, 1, 2, 3, 9]))
         k = rng.choice([0, 1, 2, 3, 4, 6, 9])
-        lines.append(" ".join(["tr"] + wr + [cand(allow_null and not distinct) for _ in range(k)]))
+        r = rng.random()
+        if r < 0.08:
+            wr.append("unique")
+            cs = [cand(False)]
+        elif r < 0.30:
+            # a UnionTranslation of 2 (operator+) or more pieces, empty ones among them
+            wr.append("union")
+            cs = []
+            for piece in range(rng.choice([2, 2, 3, 4])):
+                cs += (["/"] if piece else []) + [cand(allow_null and not distinct) for _ in range(rng.choice([0, 0, 1, 2, 3]))]
+        else:
+            cs = [cand(allow_null and not distinct) for _ in range(k)]
+        lines.append(" ".join(["tr"] + wr + cs))
+        if probe and rng.random() < 0.4:
+            lines.append("tprobe %d" % rng.choice([1, 3, len(cs) + 2, len(cs) + 3]))
+    if probe:
+        # the translations alone, past their exhaustion: no menu in this case
+        lines.append("probe %d" % rng.choice([2, 5, 12, 40]))
+        return {"lines": lines, "filters": [], "ntr": ntr, "probe": True}
     lines.append("menu " + " ".join(filters))
     for _ in range(rng.choice([3, 6, 10, 16])):
         r = rng.random()
@@ -632,6 +756,8 @@ def menu_monitor(case, impl):
     lines = case["lines"]
     if len(impl) != len(lines):
         return "crash"
+    if case.get("probe"):
+        return None          # translations driven past their exhaustion: compared with the model only
     full = [strip_g(x) for x in parse_bracket(impl[-2].split(" ", 1)[1])]
     nulls = any("null" in l.split(" ") for l in lines if l.startswith("tr"))
     for op, o in zip(lines, impl):
@@ -674,7 +800,7 @@ def run_menu_cases(c, exe, cases, tag):
     with open(p, "w") as f:
         f.write("\n".join(body) + "\n")
     rc, out = vlib.sh([exe, "menu", p], env=vlib.SAN_ENV, timeout=3000)
-    impl = [l for l in out.splitlines() if re.match(r"(reset|tr ok|menu ok|prepare|page|at|empty|count|dump|bad-op)\b", l)]
+    impl = [l for l in out.splitlines() if re.match(r"(reset|tr ok|menu ok|prepare|page|at|empty|count|dump|tprobe|probe|bad-op)\b", l)]
     model = vlib.run_driver("driver_c04", "\n".join(body) + "\n").splitlines()
     return rc, out, impl, model
 
@@ -692,6 +818,7 @@ def menu_round(c, exe, cases, stats, tag="m"):
             fails.append((cs, "crash", out[-2500:]))
             break
         stats["menu_cases"] += 1
+        stats["probe_cases"] = stats.get("probe_cases", 0) + bool(cs.get("probe"))
         stats["evaluations"] += n
         if cs["ntr"] >= 2:
             stats["nontrivial"].add(hashlib.sha256("\n".join(cs["lines"]).encode()).hexdigest())
@@ -710,6 +837,14 @@ def menu_round(c, exe, cases, stats, tag="m"):
 
 def report_menu_failure(c, exe, cs, kind, detail):
     st = {"menu_cases": 0, "evaluations": 0, "nontrivial": set()}
+    if cs.get("probe"):
+        r = {"kind": "menu", "lines": cs["lines"], "filters": [], "ntr": cs["ntr"], "probe": True, "clause": kind, "detail": detail}
+        if kind == "model-diff":
+            c.report("C04:correspondence:menu", "translation model and the translations of translation.cc disagree when driven past their exhaustion: %s" % detail[:300],
+                     dict(r, broken="correspondence driver_c04 vs c04_harness (menu)"), no_input=True)
+        else:
+            c.report("C04:%s:menu" % kind, "translations of translation.cc driven past their exhaustion: %s: %s" % (kind, detail[:300]), r)
+        return
     head = [l for l in cs["lines"] if l.split(" ")[0] in ("reset", "tr", "menu")]
     tail = ["prepare 100000", "dump", "empty"]
     mid = [l for l in cs["lines"][len(head):-3]]
@@ -767,12 +902,12 @@ def run(c):
         raise vlib.BuildError("driver_c04 does not build: " + outd[-3000:])
     ws = workspace(c, bdir)
     stats = {"states": 0, "evaluations": 0, "harness_aborts": 0, "list_lengths": [], "op_kinds": {}, "model_lists_compared": 0,
-             "nontrivial": set(), "samples": [], "menu_cases": 0}
+             "nontrivial": set(), "samples": [], "menu_cases": 0, "layouts_keyed": {}, "probe_cases": 0}
     found = []          # (reporter, args) — reported after all rounds so that minimisation does not disturb the counts
     api_corpus, menu_corpus = corpus_cases()
 
     # --- menu level: corpus, then generated
-    mcases = [dict(r, lines=r["lines"], filters=r.get("filters", []), ntr=r.get("ntr", 2)) for r, _ in menu_corpus]
+    mcases = [dict(r, lines=r["lines"], filters=r.get("filters", []), ntr=r.get("ntr", 2), probe=r.get("probe", False)) for r, _ in menu_corpus]
     mcases += [gen_menu_case(c.rng) for _ in range(400 if quick else 4000)]
     for k in range(0, len(mcases), 500):
         for cs, kind, detail in menu_round(c, exe, mcases[k:k + 500], stats, "m%d" % k):
@@ -793,8 +928,51 @@ def run(c):
             for _ in range(6 if quick else 20):
                 inputs.add("".join(c.rng.choice("abc") for _ in range(c.rng.choice([1, 2, 3, 4]))))
             for inp in sorted(inputs)[: (14 if quick else 40)]:
-                cases.append(Case(sid, [], inp, c.rng.choice(["keys", "keys", "set"]), rows_id=t))
+                cases.append(Case(sid, layout_opts(c.rng), inp, c.rng.choice(["keys", "keys", "set"]), rows_id=t))
         rounds.append((rows, cases, "syn%d" % t))
+    # synthetic schemas with simplifier / charset_filter: every combination of their options over the rounds
+    for t in range(2 if quick else 6):
+        rows = gen_rows(c.rng, TEXTS_X)
+        cases = []
+        if t == 0:
+            # directed: whole pages of kept candidates followed by a tail the charset filter removes (the page before the
+            # tail is the last one) — `ccc` yields 4 kept, 2 removed, 8 kept, 1 removed; `cc` 8 kept, 1 removed
+            for ns in rows:
+                for k in ("c", "cc", "ccc"):
+                    rows[ns].pop(k, None)
+            plain = ["一", "二", "三", "四", "五", "六", "七", "八", "九", "十", "百", "千"]
+            rows["a"]["ccc"] = [(x, "d", 0, "t") for x in plain[:4]] + [("𠀀", "d", 0, "t"), ("㐀", "", 0, "s")]
+            rows["a"]["cc"] = [(x, "d", 0, "t") for x in plain[4:]] + [("丽", "d", 0, "t")]
+            for inp in ("ccc", "cc"):
+                for ext in (0, 1):
+                    cases.append(Case("c04_charset", [("extended_charset", ext), ("simplification", 0)], inp, "keys", rows_id="x0"))
+        if t == 0:
+            # directed: lists of exactly 1, 2, 3 and 4 whole pages (page size 3) in the schemas with echo_translator
+            # (the echoed input itself is never elected while another translation has candidates: EchoTranslation::Compare)
+            plain2 = ["甲", "乙", "丙", "丁", "戊", "己", "庚", "辛", "壬", "癸", "子", "丑"]
+            for ns in rows:
+                for k in ("b", "bb", "bbb", "bbbb"):
+                    rows[ns].pop(k, None)
+            for n, k in enumerate(("bbbb", "bbb", "bb", "b")):
+                rows["a"][k] = [(x, "e", 0, "t" if n % 2 else "s") for x in plain2[3 * n:3 * n + 3]]
+            for inp in ("bbbb", "bbb", "bb", "b"):
+                for how in ("keys", "set"):
+                    cases.append(Case("c04_echo", layout_opts(c.rng), inp, how, rows_id="x0"))
+                    cases.append(Case("c04_echo2", [], inp, how, rows_id="x0"))
+        # punctuation keys: one segment tagged `punct`; after a letter as well (the punctuation segment follows an abc segment)
+        for inp in ("/", ";", "$", "a/", "b;"):
+            combo = c.rng.randrange(4)
+            cases.append(Case("c04_punct", [("simplification", combo & 1), ("full_shape", combo >> 1)] + layout_opts(c.rng), inp,
+                              c.rng.choice(["keys", "set"]), rows_id="x%d" % t))
+        for sid in sorted(OPQ):
+            keys = sorted({k for ns in OPQ[sid]["trs"] for k in rows[ns]})
+            c.rng.shuffle(keys)
+            for n, inp in enumerate(keys[: (6 if quick else 30)]):
+                names = OPQ[sid]["options"]
+                combo = (t * 7 + n) % (1 << len(names))
+                opts = [(nm, (combo >> b) & 1) for b, nm in enumerate(names)]
+                cases.append(Case(sid, opts + layout_opts(c.rng), inp, c.rng.choice(["keys", "keys", "set"]), rows_id="x%d" % t))
+        rounds.append((rows, cases, "opq%d" % t))
     # stock schemas
     cases = []
     for code in cangjie_inputs(c.rng, quick):
@@ -803,10 +981,10 @@ def run(c):
         else:
             combos = [(1, 1)] + ([(0, 0), c.rng.choice([(1, 0), (0, 1)])] if len(code) <= 2 else [])
         for (s, e) in combos:
-            cases.append(Case("cangjie5", [("simplification", s), ("extended_charset", e)], code, c.rng.choice(["keys", "keys", "set"])))
+            cases.append(Case("cangjie5", [("simplification", s), ("extended_charset", e)] + layout_opts(c.rng), code, c.rng.choice(["keys", "keys", "set"])))
     for w in luna_inputs(c.rng, 40 if quick else 300):
         simp, tw = c.rng.choice([(0, 0), (1, 0), (1, 0), (0, 1), (1, 1)])
-        cases.append(Case("luna_pinyin", [("zh_simp", simp), ("zh_tw", tw)], w, c.rng.choice(["keys", "keys", "set"])))
+        cases.append(Case("luna_pinyin", [("zh_simp", simp), ("zh_tw", tw)] + layout_opts(c.rng), w, c.rng.choice(["keys", "keys", "set"])))
     for k in range(0, len(cases), 150):
         rounds.append(({}, cases[k:k + 150], "stock%d" % k))
     for rows, cs_list, tag in rounds:
@@ -854,9 +1032,18 @@ def run(c):
                  "and with the Lean model. Menu level: generated translations (0-4, with nulls, cache/distinct wrappers, 5 filter chains) "
                  "driven by random Prepare/CreatePage/GetCandidateAt/empty sequences against the model. evaluations = observation lines "
                  "compared; non-trivial = API state whose list spans more than one page, or menu case with >= 2 translations; distinct by "
-                 "(schema, options, input, how) / script hash") % (cap, n_orders),
+                 "(schema, options, input, how) / script hash. Added: 4 synthetic schemas whose filters are simplifier (s2t one-to-many, "
+                 "show_in_comment / inherit_comment / comment_format / tips all-char-none / tip / excluded_types / two in a row) and "
+                 "charset_filter, every combination of their options, texts at both ends of the extended-CJK blocks (model fed their "
+                 "observed list, like the stock schemas); every state carries one of the selector's four layouts (_vertical, _linear, "
+                 "_horizontal) and the orders send the 16 arrow / paging / Home / End keys by keycode, the model looking each up in the "
+                 "generated keymap of that layout (keys the selector leaves to the navigator are taken out first); menu level: "
+                 "UnionTranslation (operator+ and +=, empty pieces), UniqueTranslation, a PrefetchTranslation with a queueing "
+                 "Replenish, and `probe` cases calling Peek / Next on single and merged translations past their exhaustion") % (cap, n_orders),
         "samples": samples[:6],
         "api_states": stats["states"], "menu_cases": stats["menu_cases"], "op_kind_distribution": stats["op_kinds"],
+        "translation_probe_cases": stats.get("probe_cases", 0), "key_ops_by_selector_layout": {str(k): v for k, v in sorted(stats["layouts_keyed"].items())},
+        "key_ops_left_to_navigator_dropped": stats.get("keys_left_to_navigator_dropped", 0), "states_per_schema": stats.get("per_schema", {}),
         "model_lists_compared": stats["model_lists_compared"], "harness_aborts": stats["harness_aborts"],
         "list_length_max": max(ll) if ll else 0, "list_length_median": sorted(ll)[len(ll) // 2] if ll else 0,
         "lists_truncated_at_cap": sum(1 for x in ll if x >= cap),
@@ -877,7 +1064,7 @@ def replay(c, r):
         raise vlib.BuildError("driver_c04 does not build: " + outd[-3000:])
     if r.get("kind") == "menu":
         st = {"menu_cases": 0, "evaluations": 0, "nontrivial": set()}
-        cs = dict(lines=r["lines"], filters=r.get("filters", []), ntr=r.get("ntr", 2))
+        cs = dict(lines=r["lines"], filters=r.get("filters", []), ntr=r.get("ntr", 2), probe=r.get("probe", False))
         rc, out, impl, model = run_menu_cases(c, exe, [cs], "rp")
         for op, a, b in zip(cs["lines"], impl, model):
             print("%-14s impl: %s%s" % (op[:14], a[:200], "" if a == b else "   | MODEL: " + b[:200]))
@@ -891,7 +1078,7 @@ def replay(c, r):
         if cs.orders is None:
             cs.orders = []
         st = {"states": 0, "evaluations": 0, "harness_aborts": 0, "list_lengths": [], "op_kinds": {}, "model_lists_compared": 0,
-              "nontrivial": set(), "samples": []}
+              "nontrivial": set(), "samples": [], "layouts_keyed": {}}
         f = api_round(c, exe, ws, rows_from_json(r), [cs], 0, cap, st, "rp")
         print("state: %s  list length %s%s" % (cs.state_line(), len(cs.L or []), "" if cs.complete else " (truncated)"))
         print("first candidates:", [unhex(text_of(p)).decode("utf-8", "replace") for p in (cs.L or [])[:8]])
